@@ -89,6 +89,7 @@ class World:
         self.generated = []      # leaf parts in creation order (per run)
         self.items = []          # what the sources generated (parts and batches), in creation order
         self.gate_log = []       # (gate, id(leaf part), verdict) at every evaluation of a gate predicate
+        self.deferred = []       # callback registrations to perform after the monitors attached theirs
         self.maintainer = None
         self.monitors = []
         self.events = 0
@@ -180,7 +181,9 @@ def build(world):
         elif k == 'handler':
             obj = PartHandler(name, up, world.val(d.get('cycle', 0)))
             if d.get('recv_addvalue') is not None:
-                obj.add_receive_part_callback(lambda h, part, a=world.val(d['recv_addvalue']): [p.add_value('rework', a) for p in leaves(part)])
+                # registered after the monitors' callbacks (run_world): those see the part as it arrived, like the record
+                world.deferred.append(lambda obj=obj, a=world.val(d['recv_addvalue']): obj.add_receive_part_callback(
+                    lambda h, part: [p.add_value('rework', a) for p in leaves(part)]))
         elif k == 'proc':
             res = d.get('res')
             wp = ('durs' in d or 'needs' in d or 'costs' in d)
@@ -198,7 +201,8 @@ def build(world):
         elif k == 'sink':
             obj = Sink(name, up, world.val(d.get('cycle', 0)), collect_parts=True)
             if d.get('recv_addvalue') is not None:
-                obj.add_receive_part_callback(lambda h, part, a=world.val(d['recv_addvalue']): [p.add_value('write-down', a) for p in leaves(part)])
+                world.deferred.append(lambda obj=obj, a=world.val(d['recv_addvalue']): obj.add_receive_part_callback(
+                    lambda h, part: [p.add_value('write-down', a) for p in leaves(part)]))
         elif k == 'gate':
             pred = d['pred']
             if pred == 'even':
@@ -394,6 +398,8 @@ def run_world(world, monitors):
     _schedule_ops(world)
     for m in world.monitors:
         m.attach()
+    for f in world.deferred:
+        f()
     horizons = world.spec.get('horizons') or [world.spec.get('horizon', 10 ** 7)]
     trace = bool(world.spec.get('trace'))
     if trace:
